@@ -123,11 +123,15 @@ class TracedSolver(hsolver.Solver):
         self._v = RecValueStore(trace)
 
     def _attempt_field(self, field):
-        # deterministic guard: no solve of these sizes attempts lines 150000 times; a solver that keeps re-queueing
+        # deterministic guard: no solve of these sizes attempts lines 30000 times (a 1040 + N.C. return under a random schedule was measured at under 1200); a solver that keeps re-queueing
         # a line inside its inner loop (where the tracker is never polled) would otherwise never come back
         self._hx_attempts = getattr(self, '_hx_attempts', 0) + 1
-        if self._hx_attempts > 150000:
-            raise LoopBudgetExceeded('more than 150000 line attempts in one solve')
+        if len(self._unattempted_fields) > 20000:
+            # the queue of lines waiting for a first attempt can never hold more entries than the catalogue has lines
+            # (a few thousand); a queue that keeps growing makes every re-sort slower and the solve effectively endless
+            raise LoopBudgetExceeded(f'the queue of unattempted lines holds {len(self._unattempted_fields)} entries')
+        if self._hx_attempts > 30000:
+            raise LoopBudgetExceeded('more than 30000 line attempts in one solve')
         self.trace.begin(field.name())
         before = len(self._unimplemented_fields)
         try:
@@ -259,7 +263,7 @@ def run(form_classes, requested, cp, answer_fn=None, schedule=None, want_solutio
         try:
             r.verdict = r.solver.solve(list(requested))
         except BaseException as e:     # the abort *is* the observable result
-            if isinstance(e, (KeyboardInterrupt, SystemExit)) or type(e).__module__.startswith('hypothesis'):
+            if isinstance(e, (KeyboardInterrupt, SystemExit)) or type(e).__module__.startswith('hypothesis') or type(e).__name__ == 'CaseTimeout':
                 raise
             r.exc = e
     s = r.solver
